@@ -323,8 +323,13 @@ def safe_get(rec, i):
     return rec[i] if (rec is not None and 0 <= i < len(rec)) else None
 
 
+PY_ONLY = frozenset(['toint', 'tofloat', 'bmax', 'bmin', 'bminlist', 'bsumlist', 'call', 'tuple'])
+
+
 def ev(e, env):
     k = e[0]
+    if STRICT[0] and k in PY_ONLY:
+        raise NotNeutral()
     if k == 'f':
         return safe_get(env.a if e[1] == 'a' else env.b, e[2] - 1)
     if k == 'named':
